@@ -4,13 +4,13 @@ import vlib
 from props import pyph
 
 # name -> (defines, capabilities)
-def cfg(flav, colt, idx='CONTAINER', vine=0, rep=0, rmcol=0, rows=0, intr=1, rmrows=0, mapc=0, z2=1):
+def cfg(flav, colt, idx='CONTAINER', vine=0, rep=0, rmcol=0, rows=0, intr=1, rmrows=0, mapc=0, z2=1, pair=1):
     d = ['FLAV=%d' % flav, 'COLT=%s' % colt, 'IDX=%s' % idx, 'VINE=%d' % vine, 'REP=%d' % rep, 'RMCOL=%d' % rmcol, 'ROWS=%d' % rows,
-         'INTRROWS=%d' % intr, 'RMROWS=%d' % rmrows, 'MAPC=%d' % mapc, 'Z2ONLY=%d' % z2]
+         'INTRROWS=%d' % intr, 'RMROWS=%d' % rmrows, 'MAPC=%d' % mapc, 'Z2ONLY=%d' % z2] + ([] if pair else ['PAIR=0'])
     caps = dict(flav=flav, vine=bool(vine), rep=bool(rep), rm=bool(rmcol) and (flav != 2 or mapc or not vine), rmmax=bool(vine and rmcol and (flav != 2 or mapc)), zp=not z2,
-                barcode_on_demand=(flav == 0), idid=(idx == 'IDENTIFIER' and flav != 2))
+                barcode_on_demand=(flav == 0), idid=(idx == 'IDENTIFIER' and flav != 2), mapc=bool(mapc), rows=bool(rows), pair=bool(pair))
     name = '%s_%s_%s%s%s%s%s%s%s' % (['R', 'RU', 'chain'][flav], colt.lower(), idx.lower()[:3], '_vine' if vine else '', '_rep' if rep else '', '_rm' if rmcol else '',
-                                      ('_rows' + ('i' if intr else 's') + ('r' if rmrows else '')) if rows else '', '_map' if mapc else '', '' if z2 else '_zp')
+                                      ('_rows' + ('i' if intr else 's') + ('r' if rmrows else '')) if rows else '', '_map' if mapc else '', ('' if z2 else '_zp') + ('' if pair else '_nobar'))
     return name, d, caps
 
 QUICK = [
@@ -21,6 +21,8 @@ QUICK = [
     cfg(2, 'INTRUSIVE_LIST', idx='POSITION', vine=1, rmcol=1, mapc=1, rows=1, rep=1), cfg(2, 'SET', vine=1, rmcol=1, mapc=1), cfg(2, 'LIST', idx='IDENTIFIER', vine=1, rmcol=1, mapc=1),
     cfg(2, 'INTRUSIVE_SET', rep=1), cfg(1, 'UNORDERED_SET', rep=1), cfg(1, 'SMALL_VECTOR', vine=1, rmcol=0, rep=1),
     cfg(1, 'VECTOR', rep=1, rmcol=1),      # lazily erasing columns in R and U with removals (release build: see C05.run)
+    cfg(1, 'LIST', vine=1, pair=0), cfg(1, 'NAIVE_VECTOR', idx='POSITION', vine=1, rmcol=1, pair=0),      # vine updates without stored barcode: the pairing is read off R
+    cfg(2, 'LIST', z2=0, rmcol=1, mapc=1), cfg(2, 'INTRUSIVE_SET', idx='POSITION', z2=0, rmcol=1, mapc=1, rep=1),      # chain matrices over Z_p with removals followed by insertions
 ]
 COLS = ['LIST', 'SET', 'HEAP', 'VECTOR', 'NAIVE_VECTOR', 'SMALL_VECTOR', 'UNORDERED_SET', 'INTRUSIVE_LIST', 'INTRUSIVE_SET']
 
@@ -180,18 +182,21 @@ def gen_case(rng, caps, p=2, want_vine=False, want_rep=False, custom_ids=False, 
     steps = rng.randrange(0, 14) if not on_demand else (rng.randrange(0, 12) if caps['rm'] else 0)
     removed = []
     if dup_p and rng.random() < 2 * dup_p: lines.append('dup %d' % rng.randrange(5))
+    just_removed = False
     for _ in range(steps):
         if rng.random() < dup_p: lines.append('dup %d' % rng.randrange(5))
         r = rng.random()
+        if just_removed and rng.random() < 0.6: r = 0.95       # a removal is often followed by an insertion at the freed position ...
+        just_removed = False
         if caps['vine'] and want_vine and r < 0.55:
             sw = sim.admissible_swaps()
             if not sw: continue
-            i = rng.choice(sw); lines.append('swap %d' % i); sim.order[i], sim.order[i + 1] = sim.order[i + 1], sim.order[i]; swapped = True
-        elif caps['rm'] and r < 0.75 and sim.order and ((not custom_ids and not plain_ids) or on_demand):
+            i = rng.choice(sw[-2:]) if rng.random() < 0.4 else rng.choice(sw); lines.append('swap %d' % i); sim.order[i], sim.order[i + 1] = sim.order[i + 1], sim.order[i]; swapped = True
+        elif caps['rm'] and r < 0.75 and sim.order and ((not custom_ids and not plain_ids) or on_demand or (custom_ids and caps['flav'] == 1 and not caps['mapc'] and not caps['rows'])):
             # (custom identifiers + remove_last: part of a known finding for matrices with row swaps or removable rows; the R-only flavour has neither)
             cid = sim.order[-1]
             if cid in [x for c in sim.order for x in sim.bd[c]]: continue
-            lines.append('rmlast'); sim.order.pop(); removed.append((cid, sim.dim.pop(cid), sim.bd.pop(cid)))
+            lines.append('rmlast'); sim.order.pop(); removed.append((cid, sim.dim.pop(cid), sim.bd.pop(cid))); just_removed = True
         elif caps['rmmax'] and want_vine and r < 0.85 and not custom_ids and not plain_ids:
             mp = sim.maximal_positions()
             if not mp: continue
@@ -199,7 +204,7 @@ def gen_case(rng, caps, p=2, want_vine=False, want_rep=False, custom_ids=False, 
         elif pending and (insert_after_swap or not swapped) and not ((removed_middle or swapped) and caps.get('idid')):
             c = pending.pop(0)
             if all(f in ids and ids[f] in sim.bd or not True for f, _ in cells[c][1]) and all(ids.get(f) in sim.dim for f, _ in cells[c][1]): insert(c)
-        elif removed and (not custom_ids or on_demand) and (insert_after_swap or not swapped) and not ((removed_middle or swapped) and caps.get('idid')):
+        elif removed and (not custom_ids or on_demand or (caps['flav'] == 1 and not caps['mapc'] and not caps['rows'])) and (insert_after_swap or not swapped) and not ((removed_middle or swapped) and caps.get('idid')):
             cid, d, b = removed.pop()
             if all(f in sim.dim for f in b):
                 if on_demand and custom_ids and cid not in sim.dim and cid > max(list(sim.dim) + [-1]) and rng.random() < 0.6: nid = cid; nxt = max(nxt, cid + 1)      # the freed identifier is used again, possibly at another position (identifiers stay strictly increasing along the filtration, as documented)
